@@ -28,6 +28,7 @@ fn inits(all: bool) -> Vec<(String, InitKind)> {
         ("S2 live".to_string(), InitKind::Live { classic: false }),
         ("S4 link 1 stall-latched and gated".to_string(), InitKind::Latched { link: 1 }),
         ("S4 link 0 stall-latched and gated".to_string(), InitKind::Latched { link: 0 }),
+        ("S4' link 0 gated by the silence pull only (not latched)".to_string(), InitKind::Pulled { link: 0 }),
         ("S5 link 0 timed out, awaiting back-off".to_string(), InitKind::TimedOut { link: 0, classic: false }),
         ("S6 link 0 after REG_ERR".to_string(), InitKind::AfterRegErr { link: 0, classic: false }),
     ];
@@ -42,7 +43,7 @@ fn inits(all: bool) -> Vec<(String, InitKind)> {
 }
 
 fn models(tier: Tier) -> Vec<(String, Arc<StreamModel>, Vec<Plan>)> {
-    let or = Oracles { c01: false, c03: true, c04: true, c10: false };
+    let or = Oracles { c01: false, c03: true, c04: true, c10: false, c05: false };
     let mk = |name: &str, n: usize, reduced: bool, all: bool| {
         Arc::new(StreamModel { name: name.to_string(), n, events: alphabet(n, reduced), inits: inits(all), or })
     };
